@@ -143,6 +143,18 @@ def check_univariate(case, ctx):
         D = sb.ks_stat(u)
         eps = sb.dkw_eps(n)
         if D > eps:
+            # representability: a draw of loc + 1e-20 is stored as loc itself; for a law with a power-law singularity
+            # at its location (shape product 0.12) 1.3 % of the draws collapse onto loc, where the cdf is 0.  The
+            # unrounded value lies between the neighbouring floats: judge the ecdf against [F(x-), F(x+)]
+            order = np.argsort(x, kind="stable")
+            xs = np.asarray(x, dtype=float)[order]
+            u_hi = pit(family, params, np.nextafter(xs, np.inf))
+            u_lo = pit(family, params, np.nextafter(xs, -np.inf))
+            if family == "VonMises":
+                u_hi, u_lo = np.sort(u_hi), np.sort(u_lo)
+            i = np.arange(1, n + 1)
+            D = float(max(np.max(i / n - np.maximum(u_hi, u_lo)), np.max(np.minimum(u_lo, u_hi) - (i - 1) / n)))
+        if D > eps:
             ctx.violation(f"dkw:{tag}", f"n={n} sup|ecdf-cdf|={D:.4g} > DKW bound {eps:.4g} params={params}")
     if case["rs"] == "int" and n <= 50000:
         try:
